@@ -78,6 +78,8 @@ func c14units(tier string) []mc.Unit {
 		us = append(us, mc.Unit{Name: fmt.Sprintf("len=%d", n), Weight: 10, Run: func(r *mc.Recorder) {
 			seq := c14seq(n)
 			var cnt, nt int64
+			var prevOut []byte
+			var prevCopy, prevCas string
 			st := mc.Explore(mc.Options{DevBound: dev, PreemptBound: -1}, func(c *mc.Ctx) bool {
 				rec := c14rec{name: "NC_000913.3", rstart: 1, rend: n, seq: seq}
 				if n >= 5 && c.Dev("region", 2) == 1 {
@@ -132,6 +134,11 @@ func c14units(tier string) []mc.Unit {
 						r.Failf("no-panic", cas+" Build", tags, "text", "panic: "+p)
 						return true
 					}
+					// text returned by an earlier Build must not change when Build is called again
+					if prevOut != nil && string(prevOut) != prevCopy {
+						r.Failf("written-text-stable", prevCas+" (text re-read after a later Build)", tags, q(prevCopy), q(string(prevOut)))
+					}
+					prevOut, prevCopy, prevCas = text, string(text), cas
 					if !finalNL {
 						text = []byte(strings.TrimSuffix(string(text), "\n"))
 					}
